@@ -5,8 +5,10 @@ import (
 	"net/http"
 	"os"
 	"path/filepath"
+	"runtime"
 	"strconv"
 	"strings"
+	"sync"
 
 	textwire "github.com/textwire/textwire/v2"
 	"github.com/textwire/textwire/v2/config"
@@ -374,3 +376,94 @@ func register(ty, name, fn string) error {
 
 func caseReg(f []string) string  { return "HARNESS-ERROR\treg is folded into tree" }
 func caseConv(s string) string   { return "HARNESS-ERROR\tconv is folded into render" }
+
+// caseConc: fields = fs, ops, G, R. The first operation must be (new ...). The other operations
+// are run once sequentially (baseline) and then by G goroutines, R rounds each, in shuffled
+// order with scheduling noise; every concurrent result is compared with the baseline.
+func caseConc(f []string) string {
+	if len(f) < 4 {
+		return "HARNESS-ERROR\tconc needs fs, ops, G, R"
+	}
+	fsd, err := parseSx(unhex(f[0]))
+	if err != nil {
+		return "HARNESS-ERROR\t" + err.Error()
+	}
+	ops, err := parseSx(unhex(f[1]))
+	if err != nil {
+		return "HARNESS-ERROR\t" + err.Error()
+	}
+	G, _ := strconv.Atoi(f[2])
+	R, _ := strconv.Atoi(f[3])
+
+	base := os.Getenv("VERIF_TMP")
+	if base == "" {
+		base = os.TempDir()
+	}
+	root, err := os.MkdirTemp(base, "twconc-")
+	if err != nil {
+		return "HARNESS-ERROR\t" + err.Error()
+	}
+	root, _ = filepath.EvalSymlinks(root)
+	defer os.RemoveAll(root)
+	for _, e := range fsd.list {
+		p := filepath.Join(root, unhex(e.list[0].atom))
+		os.MkdirAll(filepath.Dir(p), 0o755)
+		content := ""
+		if len(e.list) > 2 {
+			content = unhex(e.list[2].atom)
+		}
+		os.WriteFile(p, []byte(content), 0o644)
+	}
+	old, _ := os.Getwd()
+	os.Chdir(root)
+	defer os.Chdir(old)
+	textwire.VerifReset()
+	strip := func(s string) string { return strings.ReplaceAll(s, root, "$ROOT") }
+
+	var tpl *textwire.Template
+	first := runOp(ops.list[0], &tpl, strip)
+	if !strings.HasPrefix(first, "OK") {
+		return "CONC\tLOADFAIL\t" + first
+	}
+	rest := ops.list[1:]
+	baseline := make([]string, len(rest))
+	for i, op := range rest {
+		baseline[i] = runOp(op, &tpl, strip)
+	}
+
+	var wg sync.WaitGroup
+	var mu sync.Mutex
+	same, diff := 0, 0
+	firstDiff := ""
+	for g := 0; g < G; g++ {
+		wg.Add(1)
+		go func(g int) {
+			defer wg.Done()
+			seed := uint64(g*7919 + 13)
+			for r := 0; r < R; r++ {
+				for k := range rest {
+					seed = seed*6364136223846793005 + 1442695040888963407
+					i := int((seed >> 33) % uint64(len(rest)))
+					_ = k
+					if seed&3 == 0 {
+						runtime.Gosched()
+					}
+					t := tpl
+					got := runOp(rest[i], &t, strip)
+					mu.Lock()
+					if got == baseline[i] {
+						same++
+					} else {
+						diff++
+						if firstDiff == "" {
+							firstDiff = fmt.Sprintf("op %d: alone %s, concurrently %s", i, baseline[i], got)
+						}
+					}
+					mu.Unlock()
+				}
+			}
+		}(g)
+	}
+	wg.Wait()
+	return fmt.Sprintf("CONC\tsame=%d\tdiff=%d\t%s", same, diff, hx(firstDiff))
+}
